@@ -22,7 +22,7 @@ ASSUMPTIONS = ["identity treats an empty context dictionary like no context; inh
                "result is stored under the ordinary key; observed, outside the statement)"]
 COMPONENTS = {"real": ["memento_run_batch context inheritance, RecursiveContext, reference hashing with _memento_context_args, modifiers", "fork lifetimes"],
               "stub": ["generated program", "uuid4, clock"]}
-REACH = ["inner_prevent_edges", "runs", "runs_reexecuting_nothing", "runs_reexecuting_subset", "ctx_edges", "empty_ctx_edges", "prevent_runs",
+REACH = ["nonmemoized_outcomes", "inner_prevent_edges", "runs", "runs_reexecuting_nothing", "runs_reexecuting_subset", "ctx_edges", "empty_ctx_edges", "prevent_runs",
          "prevent_nested_calls_refused", "absent_context_probes", "restarts"]
 
 ROOT_CTXS = [None, {"k": 1}, {"k": 2}, {"r": "A"}, {"r": "B", "k": 1}, {}]
@@ -31,7 +31,7 @@ UNIVERSE = [None, {"k": 1}, {"k": 2}, {"k": 1, "j": "a"}, {"r": "A"}, {"r": "B",
 
 def gen_case(seed):
     rng = core.stream(seed, "gen")
-    prog = calltree.gen_tree(rng, feats={"w_ctx": 3, "w_prevent": 0.8, "p_fail": 0.12, "w_batch": 1.0, "w_map": 0.4, "p_res": 0.0})
+    prog = calltree.gen_tree(rng, feats={"w_ctx": 3, "w_prevent": 0.8, "p_fail": 0.2, "p_nomemo": 0.45, "w_batch": 1.0, "w_map": 0.4, "p_res": 0.0})
     ctxs = rng.sample(ROOT_CTXS, rng.randrange(1, 4))
     runs = []
     for _ in range(rng.randrange(2, 7)):
@@ -131,7 +131,10 @@ def execute(case):
             def visit(key):
                 if key in present:
                     return
-                present.add(key)
+                if calls[key]["outcome"][:2] == ["exc", "VNoMemo"]:
+                    stats["nonmemoized_outcomes"] = stats.get("nonmemoized_outcomes", 0) + 1     # executes, is never stored
+                else:
+                    present.add(key)
                 newly.append(key)
                 if calls[key].get("prevent"):
                     return
